@@ -51,6 +51,9 @@ fn hex(b: &packed::Byte32) -> String {
 
 impl Exec {
     pub fn viol(&mut self, prop: &str, class: &str, detail: String) {
+        // under crash injection the C01/C02/C20 oracles are C08's oracles ("same tip and state as a
+        // run that never crashed", "replay consistency for some prefix")
+        let prop = if self.sc.prop == "C08" && ["C01", "C02", "C20"].contains(&prop) { "C08" } else { prop };
         if self.res.violation.is_none() && (prop == self.sc.prop || self.sc.prop == "ALL") {
             self.res.violation = Some(Violation {
                 property: prop.into(),
@@ -158,6 +161,25 @@ impl Exec {
         let _ = drained;
         self.node.drain();
         self.observe("init_load");
+        {
+            let shared = self.node.shared.clone();
+            let store = shared.store();
+            let mut left = None;
+            for (k, _v) in store.get_iter(COLUMN_NUMBER_HASH, IteratorMode::Start) {
+                let r = packed::NumberHashReader::from_slice_should_be_ok(k.as_ref());
+                let h = r.block_hash().to_entity();
+                if store.get_block_ext(&h).is_none() {
+                    if let Some(hd) = store.get_block_header(&h) {
+                        if store.get_block_ext(&hd.parent_hash()).map(|e| e.verified != Some(false)).unwrap_or(false) {
+                            left = Some((hd.number(), h));
+                        }
+                    }
+                }
+            }
+            if let Some((n, h)) = left {
+                self.viol("C08", "stored_unverified_block_not_picked_up", format!("block {n} {} is stored without a verdict although its parent has one", hex(&h)));
+            }
+        }
         for b in self.delivered.clone() {
             let v = self.w.blocks[b].view.clone();
             self.node.deliver(&v);
@@ -170,12 +192,10 @@ impl Exec {
         self.ft.set_faketime(self.now);
     }
 
-    /// run ops[from..] until a Restart/Crash marker or the end
-    pub fn run(&mut self, from: usize) -> SegmentOut {
-        let ops = self.sc.ops.clone();
-        let mut i = from;
-        // a Crash marker applies to the segment that precedes it: arm it now
-        if let Some(Op::Crash { write, after }) = ops[from..].iter().find(|o| matches!(o, Op::Crash { .. } | Op::Restart)) {
+    /// A Crash marker applies to the segment that precedes it (recovery included): arm it.
+    pub fn arm_crash(&mut self, from: usize) {
+        let ops = &self.sc.ops;
+        if let Some(Op::Crash { write, after }) = ops[from.min(ops.len())..].iter().find(|o| matches!(o, Op::Crash { .. } | Op::Restart)) {
             let base = ckb_db::verif::writes();
             let target = base + *write;
             let after = *after;
@@ -187,6 +207,12 @@ impl Exec {
                 }
             })));
         }
+    }
+
+    /// run ops[from..] until a Restart/Crash marker or the end
+    pub fn run(&mut self, from: usize) -> SegmentOut {
+        let ops = self.sc.ops.clone();
+        let mut i = from;
         while i < ops.len() {
             if self.res.violation.is_some() {
                 break;
@@ -229,6 +255,7 @@ impl Exec {
                 self.viol(&prop, &format!("node_panic:{}", msg.split(" | ").next().unwrap_or("")), format!("the node panicked during the final drain: {}", msg));
             }
         }
+        self.res.probes.add("durable_writes", ckb_db::verif::writes());
         self.res.log_hash = self.log.finish();
         self.res.interleaving = self.il.finish();
         self.res.sim_ms = self.now.saturating_sub(self.sc.cfg.genesis_ts);
@@ -556,6 +583,7 @@ impl Exec {
             }
         }
         let (best_td, best_b) = best.unwrap();
+        let n_best = connected_valid.iter().filter(|b| self.w.st(**b).total_difficulty == best_td).count();
         let snap = self.node.shared.cloned_snapshot();
         let tip = snap.tip_hash();
         let td = bigmath::from_u256(snap.total_difficulty());
@@ -572,6 +600,12 @@ impl Exec {
                 self.viol("C06", "valid_heaviest_chain_not_attached", format!("#{best_b} td {best_td} vs tip td {td}"));
                 self.viol("C19", "valid_heaviest_chain_not_attached", format!("#{best_b} td {best_td} vs tip td {td}"));
             }
+        }
+        if td == best_td && n_best == 1 && tip != self.w.blocks[best_b].view.hash() {
+            self.viol("C01", "tip_is_not_the_unique_heaviest_chain", format!("unique heaviest valid chain ends at #{best_b} but tip is {:?}", self.w.by_hash.get(&tip)));
+        }
+        if n_best > 1 {
+            self.res.probes.inc("equal_work_tie_at_the_top");
         }
         // every connected valid block is stored; nothing connectable is left in the orphan pool
         let shared = self.node.shared.clone();
